@@ -133,6 +133,9 @@ def register(reg):
         props = ("C07",)
         suspends = False
 
+        def setup(self, c):
+            c.eng.assume_alive(c.st, c.new(c.self, "PR._connection_acquired"))
+
         def ensures(self, c):
             s = c.self
             ev = c.new(s, "PR._connection_acquired")
@@ -189,9 +192,9 @@ def register(reg):
                 return [("woken_only_with_a_connection", ("C07", "C08"), False)]
             return []
 
-        def on_suspend(self, c, label):
-            # an event that is set was set by assign_to_connection after storing the connection
-            ev = c.old(c.self, "PR._connection_acquired")
+        def after_event_wait(self, c, ev):
+            # guarantee of assign_to_connection (connection_published_before_wakeup): an event that
+            # is set was set after the connection had been stored
             c.eng.assume(c.st, z3.Implies(c.new(ev, "Evt.flag").t, F(c, c.self, "PR.connection") != 0))
 
     # ================================================================== pool construction
@@ -486,6 +489,7 @@ def register(reg):
         params = {"closing": "seq:ref:" + CI}
         raises = ["Cancelled"]
         call_raises = []
+        cancellable = False  # every await of the callee is inside its shield (closing_is_shielded_from_cancellation)
         modifies = ("CI.closed", "CI.avail", "CI.idle")
 
         def on_back_edge(self, c, ordinal):
